@@ -111,6 +111,11 @@ func H_pairs() {
 	// symbolic x symbolic multiply feeding a divide/remainder is beyond every solver's 60 s cap:
 	// pairs drawn from {*, /, %} on both sides use the concrete boundary pool
 	heavy := a.level == 10 && b.level == 10
+	// a float quotient converted back to an int (shift count, bitwise/remainder operand): FP->BV queries time out
+	intOnly := func(o op) bool { return o.level == 3 || o.level == 4 || o.level == 5 || o.level == 8 || o.sym == "%" }
+	if (a.sym == "/" && intOnly(b)) || (b.sym == "/" && intOnly(a)) {
+		heavy = true
+	}
 	binds := operands([]string{"a", "b", "c"}, a.conc || b.conc || heavy)
 	min := "$a " + a.sym + " $b " + b.sym + " $c"
 	var full string
@@ -135,7 +140,16 @@ func H_triples() {
 			nmul++
 		}
 	}
-	binds := operands([]string{"a", "b", "c", "d"}, a.conc || b.conc || c.conc || nmul >= 2)
+	hasQuo, hasIntOnly := false, false
+	for _, o := range []op{a, b, c} {
+		if o.sym == "/" {
+			hasQuo = true
+		}
+		if o.level == 3 || o.level == 4 || o.level == 5 || o.level == 8 || o.sym == "%" {
+			hasIntOnly = true
+		}
+	}
+	binds := operands([]string{"a", "b", "c", "d"}, a.conc || b.conc || c.conc || nmul >= 2 || (hasQuo && hasIntOnly))
 	min := "$a " + a.sym + " $b " + b.sym + " $c " + c.sym + " $d"
 	// full parenthesisation by precedence climbing over the table
 	type tok struct {
